@@ -332,6 +332,7 @@ func newInterp() *fast.Interp {
 	ir.DeclFunc("joinErrors", joinErrors)
 	ir.DeclFunc("sortedState", sortedState)
 	ir.DeclFunc("strOf", strOf)
+	declPanicHelpers(ir)
 	ir.Eval(importSrc)
 	return ir
 }
@@ -356,6 +357,7 @@ func runOracle(a *vh.Args, repo string, progs []prog) ([]string, error) {
 	sb.WriteString("var _ = bufio.NewReader\nvar _ = bytes.Map\nvar _ = heap.Init\nvar _ = errors.New\nvar _ = io.EOF\nvar _ = ioutil.ReadAll\nvar _ = math.Max\nvar _ = sort.Sort\nvar _ = strconv.Itoa\nvar _ = strings.Map\nvar _ sync.Once\nvar _ = time.AfterFunc\nvar _ = fmt.Sprint\n")
 	sb.WriteString(helperSrc)
 	sb.WriteString(aliasHelperSrc)
+	sb.WriteString(panicHelperSrc)
 	for _, p := range progs {
 		sb.WriteString("\n// ---- " + p.Name + " (" + p.Kind + ")\n" + p.funcSrc())
 	}
@@ -575,7 +577,8 @@ func main() {
 		"sort.Slice/SliceStable/Search with interpreted less; interpreted sort.Interface incl. pointer variables with value receivers, "+
 		"sort.Reverse; strings.Map/FieldsFunc/IndexFunc/TrimFunc, bytes.Map, compiled helper applying an interpreted func; fmt.Stringer and error through compiled helpers taking that interface type; "+
 		"interpreted io.Reader through io.Copy/ioutil.ReadAll/io.ReadFull/bufio, interpreted io.Writer through fmt.Fprintf/io.WriteString/io.Copy; heap.Interface; callbacks run on goroutines not started by the interpreter: "+
-		"compiled parallelMap, time.AfterFunc, sync.Once, compiled inGoroutine; compiled std functions called with interpreted arguments), each run in the interpreter and compiled with go build (go 1.18 module), outputs compared; "+
+		"compiled parallelMap, time.AfterFunc, sync.Once, compiled inGoroutine; 60 (thorough 1200) programs whose callbacks PANIC for some arguments (string/int/error values, division by zero, at call depth 0..3) on goroutines started by the compiled helper goEach "+
+		"(one at a time, all at once, goroutine started by a goroutine, caller's goroutine) and recover through a deferred top-level function, deferred closure, deferred method, a top-level callee's defer, a closure callback deferring a top-level function, re-panic in a deferred closure + top-level recover, or not at all (the helper reports the escaping panic); compiled std functions called with interpreted arguments), each run in the interpreter and compiled with go build (go 1.18 module), outputs compared; "+
 		"avoided class (known finding c11:proxy-unwrapped-into-empty-interface): a proxied interpreted value passed to a compiled parameter of type interface{}; corpus programs run first. "+
 		"Plus every method of every P_* proxy of imports.Packages called through its interface with PRNG arguments (recording closures in the fields). Plus vtable cases: random interpreted method sets converted to 10 compiled interfaces, every proxy field called to identify the stored method (model: coq/C11 fill). Plus conversion-site cases (model: coq/C11 crun/cread): ONE conversion site in a loop executed once per CConv operation on an addressable slice element, CSet operations assign to the elements in between, every interface value produced is read at the end; oracle: the same operation list run natively; non-trivial when the site is executed >= 2 times. "+
 		"A program is non-trivial when at least one interpreted function or method was invoked by compiled code (all templates); distinct by SHA-256 of the source")
@@ -614,6 +617,18 @@ func main() {
 		p.Name = g.k
 		progs = append(progs, p)
 	}
+	// callbacks that panic and recover on goroutines created by compiled code (gopanic.go); own PRNG: the programs above keep their seeds
+	nPanic := 60
+	if a.Thorough() {
+		nPanic = 1200
+	}
+	prng := vh.NewRng(a.Seed*104729 + 11)
+	for i := 0; i < nPanic; i++ {
+		g := &gen{r: prng, k: fmt.Sprintf("q%d", i)}
+		p := g.goroutinePanics()
+		p.Name = g.k
+		progs = append(progs, p)
+	}
 	want, err := runOracle(a, os.Getenv("VERIF_REPO"), progs)
 	if err != nil {
 		fmt.Println("c11: compiled oracle failed:", err)
@@ -649,6 +664,6 @@ func main() {
 	// every method of every proxy struct called through its interface with PRNG arguments on recording closures (shared with C31)
 	rep.Extra["proxies_exercised"] = c31core.ExerciseProxies(rep, a, rng.Fork())
 	rep.Extra["corpus_programs"] = nCorpus
-	rep.Extra["generated_programs"] = nProg
+	rep.Extra["generated_programs"] = nProg + nPanic
 	rep.Write()
 }
